@@ -1191,6 +1191,11 @@ class Runner:
                         else rng.choice(['inbox', 'Inbox'])]
             if r2 < 0.22 and m.implied():
                 return ['CREATE', rng.choice(sorted(m.implied()))]
+            # a name that is subscribed but does not exist (any more): the
+            # subscription must still be there when it exists again
+            ghosts = sorted(n for n in m.subs if n not in m.real)
+            if r2 < 0.40 and ghosts:
+                return ['CREATE', rng.choice(ghosts)]
             return ['CREATE', self.pick_new()]
         if kind == 'DELETE':
             return ['DELETE', target(0.72, 0.12)]
@@ -1207,6 +1212,9 @@ class Runner:
                 dst = src + DELIM + rng.choice(WORDS)     # under itself
             elif r2 < 0.36 and DELIM in src:
                 dst = src.rsplit(DELIM, 1)[0] + 'r'        # next to its parent
+            elif r2 < 0.46 and any(n not in m.real for n in m.subs):
+                dst = rng.choice(sorted(n for n in m.subs
+                                        if n not in m.real))
             else:
                 dst = self.pick_new()
             return ['RENAME', src, dst]
